@@ -29,10 +29,10 @@ import (
 const hangLimit = 4 * time.Second
 
 type sendRec struct {
-	seq        int
-	enc        []byte
-	async      bool
-	err        error
+	seq         int
+	enc         []byte
+	async       bool
+	err         error
 	beforeClose bool // returned before Close was invoked
 }
 
@@ -82,6 +82,7 @@ func senderPacket(id, seq, pad int) *packet.Publish {
 func call(f func()) bool {
 	done := make(chan struct{})
 	go func() {
+		defer recoverNote()
 		defer close(done)
 		f()
 	}()
@@ -222,6 +223,7 @@ func (x *c03) concurrent(sc scenario) {
 	}
 	// senders done -> the closer may go (the trigger may never come)
 	go func() {
+		defer recoverNote()
 		swg.Wait()
 		close(sendersDone)
 	}()
@@ -486,6 +488,7 @@ func (x *c03) gatedIntact() {
 		var sendErr error
 		done := make(chan struct{})
 		go func() {
+			defer recoverNote()
 			sendErr = connA.Send(bigA, round%3 == 2) // mostly flushed; a buffered one overflows the 4096-byte buffer just the same
 			close(done)
 		}()
@@ -593,14 +596,14 @@ func (x *c03) closeBehindSend() {
 		msg := ""
 		// a receiver is pending the whole time
 		rdone := make(chan struct{})
-		go func() { defer close(rdone); _, _ = conn.Receive() }()
+		go func() { defer recoverNote(); defer close(rdone); _, _ = conn.Receive() }()
 		e1 := conn.Send(first, true)
 		if e1 != nil {
 			msg = fmt.Sprintf("buffered Send failed: %v", e1)
 		}
 		var e2 error
 		sdone := make(chan struct{})
-		go func() { defer close(sdone); e2 = conn.Send(second, round%4 < 2) }()
+		go func() { defer recoverNote(); defer close(sdone); e2 = conn.Send(second, round%4 < 2) }()
 		select {
 		case <-reached:
 		case <-time.After(hangLimit):
@@ -608,7 +611,7 @@ func (x *c03) closeBehindSend() {
 		}
 		var cerr error
 		cdone := make(chan struct{})
-		go func() { defer close(cdone); cerr = conn.Close() }()
+		go func() { defer recoverNote(); defer close(cdone); cerr = conn.Close() }()
 		early := false
 		select {
 		case <-cdone:
@@ -714,12 +717,14 @@ func (x *c03) concurrentCases() {
 
 func runC19(c *hx.Ctx) {
 	x := &c03{c: c, oracle: map[string]bool{}}
+	defer x.finishPanics()
 	if c.Replay != "" {
 		x.replay(c.Replay)
 		return
 	}
 	x.closeScripts()
 	x.closeBehindSend()
+	x.stalledSendCases()
 	x.gatedIntact()
 	x.concurrentCases()
 	if c.Thorough() {
